@@ -12,6 +12,7 @@ SPEC = {
             "boundary or make offset+size wrap to 0,1,n,n+1 — for every accessor (pgetv, pget<T>, 26 typed pget_*/get_*, getv, get<T>, "
             "peek, preadx/readx x2, pread/read x2, sub/subx/sub_bits/subx_bits x2, skip, skip_if, pget_cstr/get_cstr, get_line, all, "
             "truncate; BufferWriter pwrite/write x2 and 34 put_*/pput_*; StringWriter 34 pput_* with offsets <=4096 or >=2^63). "
+            "Cursor-past-the-end stage (own child): go(k) or the constructor offset with k in {n+1..n+4,n+7..n+9,n+15..n+17,n+63,n+64,n+4095..n+4097,2n+1,2^31,2^32,2^63-1..2^63+1,2^64-n-2..2^64-n,2^64-k (k=1..16)}, then every cursor operation (getv, get<T>, peek, 26 get_*, readx/read x2, skip, skip_if with a needle equal/unequal to the slack bytes around the buffer, get_cstr, get_line) with sizes around 0, n, the wrapped remaining() and the values making cursor+size wrap into the buffer: the outcome must be std::out_of_range or an empty/false result; a pointer, a value, bytes, a reported match, a sanitizer report or a guard-page fault is a violation keyed cursor_past_end:<family>:out-of-buffer-read. "
             "Histories: seeded random sequences of 1..24 ops (go inside / just past / far past the end, mixed reads, truncate, descent into "
             "sub-readers) with boundary-biased arguments. Oracle: request (off,size) on n bytes is in range iff off<=n && size<=n-off "
             "(unsigned __int128); throwing forms return exactly the slice or throw std::out_of_range, clamping forms return the in-range "
@@ -49,6 +50,12 @@ SPEC = {
         "bw.put:w8:end:slice",
         "sw.pput:w1:wrapped:throw", "sw.pput:w2:wrapped:throw", "sw.pput:w4:wrapped:throw", "sw.pput:w8:wrapped:throw", "sw.pput:w8:past-end:throw",
         "sw.pput:w4:grow:slice", "sw.pput:w2:in:slice", "sw.append:grow:slice",
+        # cursor-past-the-end stage: every cursor operation was driven from go(k), k > n
+        "cursor_past_end:skip_if:*", "cursor_past_end:skip:*", "cursor_past_end:getv:throw",
+        "cursor_past_end:get<T>:throw", "cursor_past_end:peek:throw", "cursor_past_end:get:w1:throw", "cursor_past_end:get:w2:throw",
+        "cursor_past_end:get:w3:throw", "cursor_past_end:get:w4:throw", "cursor_past_end:get:w6:throw", "cursor_past_end:get:w8:throw",
+        "cursor_past_end:readx(str):throw", "cursor_past_end:readx(buf):throw", "cursor_past_end:read(str):empty",
+        "cursor_past_end:read(buf):empty", "cursor_past_end:get_cstr:throw", "cursor_past_end:get_line:*",
     ],
     "exhaustive": {"quick": False, "thorough": False},
     "exhaustive_note": "the boundary table (accessor x n x buffer kind x offset x size [x advance]) is enumerated completely; the space of "
@@ -56,7 +63,7 @@ SPEC = {
     "assumptions": ASSUME_COMMON + [
         "StringWriter::pput offsets are restricted to <= 4096 or >= 2^63: mid-range offsets would legitimately try to allocate terabytes "
         "(gnu++20 std::string::max_size() is 2^63-1, so offsets >= 2^63 must fail fast)",
-        "not demanded: zero-size requests at offset == n may return empty or throw; skip()/skip_if() after an explicit go() past the end; "
+        "not demanded: zero-size requests at offset == n may return empty or throw; after an explicit go() past the end the RESULT of skip()/skip_if() (exception vs false/clamp) - they are still required not to read outside the buffer; "
         "BitReader::pread bounds; cursor position after a rejected BufferWriter::write; get_line at/after the end may return empty or throw",
         "sub-reader extents, BitReader extents and the BufferWriter cursor are observed through '#define private public' (access only; layout unchanged)",
         "value correctness of the signed 24/48-bit accessors is compared through phosg's own ext24/ext48 (their defect is C01's subject)",
